@@ -215,7 +215,7 @@ class Engine:
                 continue
             ent = self.find_class(cls)
             if ent is None:
-                return base in ('Exception', 'BaseException')
+                return base in ('Exception', 'BaseException') and ('Exception' in cls or cls.endswith('Error'))
             mod, node = ent
             nxt = None
             for b in node.bases:
@@ -334,6 +334,8 @@ class Engine:
                 if ent and ent[2] is not None:
                     raise Unsupported('truth of object with %s' % m)
             return True
+        if hasattr(self, 'Opaque') and isinstance(v, self.Opaque):
+            return z3.Bool(uid('opaque_truth'))
         if isinstance(v, (Fn, UserFn, ClassVal, DictVal, SetVal)):
             if isinstance(v, DictVal):
                 return len(v.d) > 0
@@ -423,7 +425,10 @@ class Engine:
         self.sinks.append([])
         self.pure += 1
         try:
-            rs = self.ev(node, st)
+            try:
+                rs = self.ev(node, st)
+            except Unsupported:
+                rs = [(st, self.Opaque())]     # a module constant the model does not track
         finally:
             self.pure -= 1
             self.sinks.pop()
@@ -661,6 +666,8 @@ class Engine:
             st = self.fork_exc(st, b_not(b_or(*conds)), 'TypeError', node)
             if st.dead:
                 return []
+        if isinstance(a, self.Opaque) or isinstance(b, self.Opaque):
+            return [(st, self.Opaque())]
         if not ((is_intlike(a) or is_reallike(a)) and (is_intlike(b) or is_reallike(b))):
             raise Unsupported('binop %s on %r, %r (line %s)' % (op, a, b, getattr(node, 'lineno', '?')))
         if op in ('/', '//', '%'):
@@ -700,9 +707,7 @@ class Engine:
                 if fnode is None:
                     return self.module_const(mod, q)
                 if any(isinstance(d, ast.Name) and d.id == 'property' for d in fnode.decorator_list):
-                    rs = self.call_user(UserFn(mod, q, fnode, v), [], {}, st, node)
-                    if len(rs) != 1:
-                        raise Unsupported('property %s forked' % q)
+                    rs = self.inline_call(UserFn(mod, q, fnode, v), [], {}, st, node, merge=True)
                     return rs[0][1]
                 return UserFn(mod, q, fnode, v)
             bm = self.builtins.get('cls:%s.%s' % (o.cls, attr))
@@ -757,6 +762,10 @@ class Engine:
             # attribute of an optional: None has no attributes
             st2 = self.fork_exc(st, b_not(v.isnone), 'AttributeError', node)
             return self.getattr(v.val, attr, st2, node)
+        if isinstance(v, StructVal) and attr == 'size':
+            from .builtins import install as _i
+            import struct as _st
+            return _st.calcsize(v.fmt)
         meth = self.builtins.get('method:' + attr)
         if meth is not None:
             return Fn(lambda eng, s, args, kw, n, _v=v, _m=meth: _m.call(eng, s, [_v] + list(args), kw, n), attr)
@@ -858,6 +867,8 @@ class Engine:
                     st.assume(f)
             elif isinstance(vv.ekind, KByte) and is_z3(el) and not self.pure:
                 st.assume(z3.And(el >= 0, el <= 255))
+            if isinstance(vv.ekind, KByte) and is_z3(el):
+                ops.set_bits(el, 8, 0)
             return [(st, el)]
         if isinstance(v, Ref):
             ent = self.find_method(v.cls, '__getitem__')
@@ -966,6 +977,8 @@ class Engine:
     def to_iter_view(self, v, st, node):
         if isinstance(v, View):
             return v
+        if isinstance(v, self.Opaque):
+            return View(z3.Int(uid('opaque_len')), lambda i: self.Opaque(), None, None, 'list')
         if isinstance(v, (bytes, Tup, str)):
             return as_view(v)
         if isinstance(v, DictVal):
@@ -1352,6 +1365,8 @@ class Engine:
             extra['result'] = res
         elif c.returns is not None:
             res = fresh(c.returns, uid(c.func.split('.')[-1] + '_res'), (), facts)
+            if isinstance(c.returns, KByte):
+                ops.set_bits(res, 8, 0)
             if isinstance(c.returns, KRec):
                 res = st.new_obj(res.cls, res.fields)
             extra['result'] = res
@@ -2022,8 +2037,12 @@ class Engine:
                     self.prove_induction(s, post, lem, li, fnode, fr)
                 for i, e in enumerate(c.ensures):
                     self.oblige(s, 'post#%d' % i, self.spec_bool(e, post, None, fr.old), fnode, note=e)
+                pre = State()
+                pre.env = dict(fr.old[0])
+                pre.heap = fr.old[1]
+                pre.pc = s.pc
                 for ecls, cond in c.raises.items():
-                    self.oblige(s, 'noraise:%s' % ecls, b_not(self.spec_bool(cond, post, None, fr.old)), fnode,
+                    self.oblige(s, 'noraise:%s' % ecls, b_not(self.spec_bool(cond, pre, None, fr.old)), fnode,
                                 note='returns normally only if not (%s)' % cond)
                 self.check_frame(c, s, fr, fnode)
                 for i, cn in enumerate(c.canaries):
@@ -2099,8 +2118,12 @@ class Engine:
             self.oblige(s, 'noexc:%s@%s' % (ecls, self.site(_L(line), 'exc')), False, _L(line),
                         note='undeclared exception %s raised at line %d' % (ecls, line))
             return
+        pre = State()
+        pre.env = dict(fr.old[0])
+        pre.heap = fr.old[1]
+        pre.pc = s.pc
         self.oblige(s, 'raises:%s@%s' % (ecls, self.site(_L(line), 'exc')),
-                    b_or(*[self.spec_bool(cond, post, None, fr.old) for cond in allowed]), _L(line),
+                    b_or(*[self.spec_bool(cond, pre, None, fr.old) for cond in allowed]), _L(line),
                     note='%s raised at line %d only when its condition holds' % (ecls, line))
         for k, posts in c.ensures_exc.items():
             if self.is_subclass(ecls, k):
